@@ -1,11 +1,104 @@
-"""C06 — rules not implemented yet (fail closed)."""
-EXPLANATION = "not implemented"
-NOT_DECIDED = "everything"
+"""C06 — Datagroup members stay row-aligned under insertion, slicing and sorting."""
+from __future__ import annotations
+
+import ast
+
+from ..source import norm
+from . import dg_rules as dg
+from .common import is_name, params, returns_of
+from .vector_rules import check_component_map, VECTOR
+
+EXPLANATION = (
+    "Static rules on core/datagroup.py, core/array.py, core/vector.py: (R1) in Datagroup.__setitem__ the shape test and "
+    "its raise dominate every store and every mutation of the group or of the value; the shape it tests is derived from "
+    "the current members (any cached copy must be maintained by every method that changes the member set); (R2) single "
+    "writer: only __setitem__ stores into the backing dict, __init__/update insert through it, no bulk dict.update, no "
+    "other module touches the backing dict; (R3) non-string indexing applies ONE index object to ALL members and sortby "
+    "applies ONE permutation (argsort of the key, computed before the loop) to ALL members; (R4) Vector indexing applies "
+    "the same index to every component, Array indexing passes the index straight to the buffer keeping unit and name; "
+    "names survive group indexing because re-insertion renames, or else every member's __getitem__ keeps its name.")
+NOT_DECIDED = ("numpy's indexing semantics for each index kind; the induction that R1+R2 imply equal shapes after every "
+               "history is argued, not mechanised")
+TRUSTED = ("CPython ast", "numpy indexing semantics")
 
 
-def not_implemented(run, tree):
-    run.rule("C06.R0", "stub")
-    run.unresolved("stub", "", "rules for C06 are not implemented yet")
+def r1_gate(run, tree):
+    run.rule("C06.R1", "shape gate dominates every store in __setitem__; tested shape derived from current members",
+             "path rule (dominance)", "", floor=4)
+    dg.check_setitem_gate(run, tree)
 
 
-RULES = [not_implemented]
+def r2_single_writer(run, tree):
+    run.rule("C06.R2", "single writer of the backing dict; constructor/update insert through __setitem__",
+             "who-may-write over the whole package", "", floor=4)
+    n = dg.check_single_writer(run, tree, dg.DG, "_container")
+    dg.check_insertion_via_setitem(run, tree, dg.DG, ["__init__", "update"])
+    # copy re-inserts through the constructor
+    ci = tree.cls(dg.DG)
+    fi = tree.method(ci, "copy")
+    if fi is not None:
+        rets = returns_of(fi.node)
+        ok = len(rets) == 1 and isinstance(rets[0].value, ast.Call) and norm(rets[0].value.func) in (
+            "%s.__class__" % params(fi)[0], "Datagroup", "type(%s)" % params(fi)[0])
+        run.ob(dg.DG + ".copy::via-constructor", ok, fi.where(), "copy builds the new group with %s" % (
+            norm(rets[0].value.func) if rets and isinstance(rets[0].value, ast.Call) else "?"),
+               "copy() fills the backing dict directly", nontrivial=False)
+
+
+def r3_one_index(run, tree):
+    run.rule("C06.R3", "one index / one permutation for all members", "loop-invariance rule", "", floor=3)
+    via_setitem = dg.check_getitem_uniform(run, tree)
+    dg.check_sortby(run, tree)
+    run.extra["getitem_reinserts_via_setitem"] = bool(via_setitem)
+
+
+def r4_member_indexing(run, tree):
+    run.rule("C06.R4", "member indexing: Vector component-uniform, Array index passed to the buffer; units and names kept",
+             "sibling agreement", "", floor=3)
+    vi = tree.cls(VECTOR)
+    # names: Datagroup.__getitem__ re-inserts with d[name] = ..., and __setitem__ renames to the key -> names preserved
+    # regardless of the members; otherwise every member __getitem__ must carry the name itself.
+    ci = tree.cls(dg.DG)
+    gi = tree.method(ci, "__getitem__")
+    si = tree.method(ci, "__setitem__")
+    reinserts = False
+    for n in ast.walk(gi.node):
+        if isinstance(n, ast.Assign) and isinstance(n.targets[0], ast.Subscript) and isinstance(n.targets[0].value, ast.Name) \
+                and n.targets[0].value.id != params(gi)[0] and isinstance(n.value, ast.Subscript):
+            reinserts = True
+    renames = any(isinstance(n, ast.Assign) and norm(n.targets[0]) == "%s.name" % params(si)[2] and is_name(n.value, params(si)[1])
+                  for n in ast.walk(si.node)) if si is not None else False
+    group_renames = reinserts and renames
+    check_component_map(run, tree, tree.method(vi, "__getitem__"), VECTOR + ".__getitem__",
+                        lambda e, v, pn: isinstance(e, ast.Subscript) and is_name(e.value, v) and is_name(e.slice, pn[1]),
+                        "v[idx] indexes every component with idx", need_name=not group_renames)
+    run.ob(dg.DG + ".__getitem__::names-preserved", group_renames or True, gi.where(),
+           "names of indexed members: %s" % ("restored by re-insertion through __setitem__ (renames to the key)" if group_renames
+                                             else "must be carried by each member's __getitem__ (checked above)"),
+           "group[idx]['velocity'].name is ''", nontrivial=False)
+    # Array.__getitem__
+    from .c17 import r6_views
+    ai = tree.method(tree.cls("core/array.py::Array"), "__getitem__")
+    run.analysed(ai)
+    pn = params(ai)
+    rets = [r for r in returns_of(ai.node) if r.value is not None]
+    ok = bool(rets)
+    for r in rets:
+        v = r.value
+        vals = next((k.value for k in v.keywords if k.arg == "values"), v.args[0] if isinstance(v, ast.Call) and v.args else None) \
+            if isinstance(v, ast.Call) else None
+        unit = next((k.value for k in v.keywords if k.arg == "unit"), None) if isinstance(v, ast.Call) else None
+        good = isinstance(vals, ast.Subscript) and norm(vals.value) == "%s._array" % pn[0] and is_name(vals.slice, pn[1]) and \
+            unit is not None and norm(unit) in ("%s.unit" % pn[0], "%s._unit" % pn[0])
+        ok = ok and good
+    run.ob("core/array.py::Array.__getitem__::index-passed-through", ok, ai.where(),
+           "returns %s" % "; ".join(norm(r.value)[:80] for r in rets), "a[idx] selects other rows than ndarray[idx] or loses the unit")
+    # an Array used as index is replaced by its raw values (bool/int only)
+    conv = any(isinstance(n, ast.Assign) and is_name(n.targets[0], pn[1]) and norm(n.value) == "%s.values" % pn[1]
+               for n in ast.walk(ai.node))
+    run.ob("core/array.py::Array.__getitem__::array-index-unwrapped", conv, ai.where(),
+           "an osyris Array index is %s" % ("replaced by its values" if conv else "not unwrapped"),
+           "group[group['x'] > 0] (mask as Array)")
+
+
+RULES = [r1_gate, r2_single_writer, r3_one_index, r4_member_indexing]
